@@ -630,6 +630,9 @@ func zzArmedChan[T any](c chan T) bool  { panic("spec only") }
 //@ loop 1 preserves [retry]    zzCalls("hsms.(transport).Start") == 1 && zzCalls("hsms.(*ConnectionMetrics).incReconnects") == 0
 //@ loop 1 preserves [fence]    !zzRet[bool]("atomic.Load:shutdown") && zzRet[uint64]("atomic.Load:reconnectGen") == gen
 //@ ensures [count]   zzCalls("hsms.(*ConnectionMetrics).incReconnects") <= 1
+//@ ensures [gauge]   zzCalls("hsms.(*ConnectionMetrics).incConnRetry") == 1 && zzCalls("hsms.(*ConnectionMetrics).decConnRetry") == 1 &&
+//@                   zzSeq("hsms.(*ConnectionMetrics).incConnRetry") < zzSeq("hsms.(*ConnectionMetrics).decConnRetry")
+//@ loop 1 preserves [held] zzCalls("hsms.(*ConnectionMetrics).incConnRetry") == 0 && zzCalls("hsms.(*ConnectionMetrics).decConnRetry") == 0
 //@ ensures [counted] zzCalls("hsms.(*ConnectionMetrics).incReconnects") == 1 ==> countReconnect && zzRet[error]("hsms.(transport).Start") == nil &&
 //@                   !zzRet[bool]("atomic.Load:shutdown") && zzRet[uint64]("atomic.Load:reconnectGen") == gen
 
